@@ -178,6 +178,40 @@ pub fn last_panic() -> Option<String> {
     LAST_PANIC.with(|p| p.borrow().clone())
 }
 
+/// Runs `f` inside a destructor while the thread is unwinding from a (harness-made, contained) panic:
+/// what clean-up code in a `Drop` impl does. `std::thread::panicking()` is true inside `f`.
+pub fn while_unwinding<T>(f: impl FnOnce() -> T) -> T {
+    type Slot<T> = std::cell::Cell<Option<std::thread::Result<T>>>;
+    struct Guard<'a, F: FnOnce() -> T, T>(Option<F>, &'a Slot<T>);
+    impl<F: FnOnce() -> T, T> Drop for Guard<'_, F, T> {
+        fn drop(&mut self) {
+            if let Some(f) = self.0.take() {
+                // a panic of `f` must not leave the destructor (that would abort the process)
+                self.1.set(Some(panic::catch_unwind(AssertUnwindSafe(f))));
+            }
+        }
+    }
+    let out: Slot<T> = std::cell::Cell::new(None);
+    IN_GUARD.with(|g| g.set(g.get() + 1));
+    let _ = panic::catch_unwind(AssertUnwindSafe(|| {
+        let _guard = Guard(Some(f), &out);
+        panic::resume_unwind(Box::new("harness: unwinding on purpose"));
+    }));
+    IN_GUARD.with(|g| g.set(g.get() - 1));
+    match out.into_inner().expect("harness: the destructor ran") {
+        Ok(v) => v,
+        Err(payload) => {
+            LAST_PANIC.with(|p| {
+                let mut p = p.borrow_mut();
+                if let Some(m) = p.as_mut() {
+                    m.push_str(" [called from a destructor while the thread was unwinding]");
+                }
+            });
+            panic::resume_unwind(payload)
+        }
+    }
+}
+
 /// Marks the calling (helper) thread as running code under test for good: panics there are recorded,
 /// not printed.
 pub fn enter_guard() {
